@@ -616,20 +616,28 @@ def entry_guards(ctx):
     ea = S.need(S.call_nodes("aux.enterAll"), "aux.enterAll() in Suspender.action")
     claim_after_checks(ctx, S, "T1-susp")
     nt = S.need(need_tests(S), "`if not act()` needs test")
-    ot = S.need([t for t in S.cfg.nodes if t.kind == "test" and isinstance(t.ast.test, ast.BoolOp) and isinstance(t.ast.test.op, ast.And) and
-                 {src(S.sym(v, t)) for v in t.ast.test.values} == {"aux.main", "aux.main is not self._act.frame"}], "aux ownership test")
-
-    st = S.need(S.tests(lambda t: src(t) == "not aux.checkStart()"), "`if not aux.checkStart()`")
+    from ..rules import path_condition, formula_implies_f, formula_of
     nl = S.need(loops_over(S, "needs"), "needs loop")
-    ok = S.dominated_by_edge(ea, ot[0], "F") and S.dominated_by_edge(ea, st[0], "F") and \
+    OWN = "not (aux.main and aux.main is not self._act.frame)"
+    START = "aux.checkStart()"
+
+    def guarded(nodes):
+        # by value: whatever the spelling (separate guard clauses, one merged test, nested ifs), the node runs only when the aux
+        # is free or ours AND its entry check passed
+        for n in nodes:
+            pc = path_condition(S, n)
+            if not (formula_implies_f(pc, formula_of(OWN)) and formula_implies_f(pc, formula_of(START))):
+                return False
+        return True
+    ok = guarded(ea) and \
         not (S.cfg.reachable(S.cfg.entry.id, removed_edges=S.cfg.edges_from(nl[0].id, "done")) & set(S.ids(ea))) and \
         all(nl[0].id not in S.cfg.reachable(g.id) and g.id not in S.cfg.reachable(nl[0].id)
             for g in S.need(S.call_nodes("aux.segue"), "aux.segue()"))      # conditions belong to the not-running case only
     ctx.check(ok, "T1-susp", sa, "aux.enterAll() only after needs, ownership test and checkStart passed",
               "a conditional auxiliary may start only when its conditions hold, it is not owned by another frame, "
-              "and its first-frame entry conditions hold")
+              "and its first-frame entry conditions hold (aux.checkStart() must be consulted for a free aux as well)")
     tr = loops_over(S, "self._tracts")
-    ctx.check(bool(tr) and S.dominated_by_edge(tr, st[0], "F") and S.dominated_by_edge(tr, ot[0], "F"), "T1-susp", sa,
+    ctx.check(bool(tr) and guarded(tr), "T1-susp", sa,
               "transit actions of the conditional aux after all guards", "a refused start runs no transit actions")
     clocks(ctx, guard_only=True)
 
@@ -976,3 +984,76 @@ def need_tests(V, iterable="needs"):
     names = {dotted(h.ast.target) for h in loops_over(V, iterable) if isinstance(h.ast.target, ast.Name)}
     return V.tests(lambda t: isinstance(t, ast.UnaryOp) and isinstance(t.op, ast.Not) and isinstance(t.operand, ast.Call)
                    and not t.operand.args and dotted(t.operand.func) in names)
+
+
+def per_tick_over_actives(ctx, rule="T3-actives"):
+    """what a framer does in a tick (transitions, recur actions) it does for the frames of .actives - the part of the outline a
+    running conditional auxiliary has not suspended - top-down, and enterAll clears .done before anything is entered"""
+    ctx.rule(rule, "Framer.recur and Framer.segue loop over self.actives (by value) and nothing else; Framer.enterAll resets "
+             ".done before activate/enter")
+    for mname, inner in (("recur", ("frame.recur",)), ("segue", ("frame.segueAuxes", "frame.precur"))):
+        f = ctx.fn("framing", "Framer." + mname)
+        V = FuncView(ctx, f)
+        loops = [n for n in V.cfg.nodes if n.kind == "for" and getattr(n, "copy", 0) == 0]
+        iters = sorted({src(V.sym(n.ast.iter, n)) for n in loops})
+        calls = [c for pat in inner for c in V.call_nodes(pat)]
+        ok = bool(loops) and iters == ["self.actives"] and len(calls) >= len(inner) and \
+            all(any(c.id in {b.id for b in V.body_nodes(l.ast)} for l in loops) for c in calls)
+        ctx.check(ok, rule, f, "Framer.%s iterates %s calling %s" % (mname, iters, list(inner)),
+                  "the frames below the main frame of a running conditional auxiliary are suspended: they are in the active frame's "
+                  "full outline but not in .actives; looping over anything else (active.outline, a cached list) runs their actions "
+                  "or transitions while they are suspended, or skips frames that are active")
+    ea = ctx.fn("framing", "Framer.enterAll")
+    E = FuncView(ctx, ea)
+    dn = [n for n in E.stores("self.done")]
+    after = E.call_nodes("self.activate") + E.call_nodes("self.enter")
+    okd = bool(dn) and bool(after) and all(isinstance(n.ast, ast.Assign) and isinstance(n.ast.value, ast.Constant) and n.ast.value.value is False
+                                           for n in dn) and all(E.dominated([a], dn) for a in after) and \
+        not any(d.id in E.cfg.reachable(a.id) for a in after for d in dn)
+    ctx.check(okd, rule, ea, "Framer.enterAll: self.done = False before activate()/enter()",
+              "an enter action of the first frame may complete the framer (`done me`); clearing .done after the frames were entered "
+              "wipes that out, and the framer never reports done")
+
+
+def precur_first_truthy(ctx, P, rets):
+    """Frame.precur: preacts in script order; the first one whose result is truthy - whatever it is: the frame a transition went
+    to, the framer of a conditional aux that started or is running, True - ends the evaluation with a truthy result"""
+    from ..rules import path_condition, formula_equiv
+    lp = P.need(loops_over(P, "self.preacts"), "preacts loop")
+    var = src(lp[0].ast.target)
+    inner = [r for r in rets if r.id in {b.id for b in P.body_nodes(lp[0].ast)}]
+    if not inner:
+        return False
+    ok = True
+    for r in inner:
+        truthy = isinstance(r.ast.value, ast.Constant) and bool(r.ast.value.value)
+        pc = path_condition(P, r)
+        ok = ok and truthy and formula_equiv(pc, "%s()" % var)
+    calls = P.call_nodes(var)
+    ok = ok and len(calls) == 1 and every_iteration_passes(P, lp[0], calls) and not P.call_nodes(("reversed", "reverse", "sorted"))
+    return ok
+
+
+def precur_rule(ctx, rule):
+    ctx.rule(rule, "Frame.precur returns truthy at the first preact whose result is truthy (any truthy value)")
+    fp = ctx.fn("framing", "Frame.precur")
+    P = FuncView(ctx, fp)
+    rets = [n for n in P.cfg.nodes if n.kind == "return"]
+    ctx.check(precur_first_truthy(ctx, P, rets), rule, fp, "precur: for act in preacts: if act(): return True",
+              "Suspender.action returns the aux framer while its conditional aux runs: that truthy result is what keeps the clauses "
+              "after `aux .. if ..` in the main frame from firing; a precur that recognises only some truthy results lets them run")
+
+
+def tracts_only_when_taken(ctx, rule):
+    """the transit acts of a transition (the marker resets of `if .. is updated/changed` needs among them) run only when the
+    transition is taken: after the needs held AND framer.checkEnter allowed the far frame"""
+    ctx.rule(rule, "Transiter.action: the loop over self._tracts is dominated by the passing edge of framer.checkEnter(..)")
+    ta = ctx.fn("acting", "Transiter.action")
+    V = FuncView(ctx, ta)
+    chk = V.need(V.ptests(lambda t: isinstance(t, ast.Call) and suffix_match(call_name(t), "framer.checkEnter")),
+                 "test of framer.checkEnter(...)")
+    c, passed = chk[0]
+    tr = V.need(loops_over(V, "self._tracts"), "tracts loop")
+    ctx.check(all(V.dominated_by_edge([t], c, passed) for t in tr), rule, tr[0].ast, "transit acts run after checkEnter passed",
+              "a marker that is reset although the entry guard of the far frame then refuses the transition forgets the update it "
+              "was watching: the transition is not taken later when the guard opens")
